@@ -314,9 +314,8 @@ mutual
     | .cons o rest => defsOp o ++ defsOps rest
 end
 
-/-- a statement without routine definitions is also well-scoped as part of a routine body
+/-! a statement without routine definitions is also well-scoped as part of a routine body
 (where `return` would be allowed in addition) -/
-theorem mono_aux : True := trivial
 
 mutual
   theorem mono_stmt : ∀ (s : Stmt) (il im : Bool), wsStmt K false il im s = true →
